@@ -196,7 +196,7 @@ static bool decode_prog(const std::vector<i64> &a, std::vector<PassDef> &passes,
     size_t i = 0; auto get = [&](i64 &v) { if (i >= a.size()) return false; v = a[i++]; return true; };
     i64 np, v; if (!get(np) || np < 1 || np > 16) return false; if (!get(v)) return false; nsub = unsigned(v < 0 ? 0 : v > np ? np : v); if (!get(v)) return false; numUser = unsigned(v & 7);
     if (!get(v)) return false; ijust_np = v != 0; if (!get(v)) return false; rtl = (v & 1) != 0; const unsigned bidi_in = unsigned((v >> 4) & 0xF);
-    if (!get(v)) return false; h.flags = unsigned(v & 1); h.badlb = (v & 2) != 0; h.zerocol = (v & 4) != 0; h.skipattr = unsigned((v >> 4) & 0xF); h.bidi = bidi_in;   // bit 1: the line-end glyph id names no glyph of the font i64 nj; if (!get(nj) || nj < 0 || nj > 3) return false; for (i64 q = 0; q < 4 * nj; ++q) { if (!get(v)) return false; h.just.push_back(unsigned(v & 0xFF)); }
+    if (!get(v)) return false; h.flags = unsigned(v & 1); h.badlb = (v & 2) != 0; h.zerocol = (v & 4) != 0; h.skipattr = unsigned((v >> 4) & 0xF); h.bidi = bidi_in;   /* bit 1: the line-end glyph id names no glyph of the font */ i64 nj; if (!get(nj) || nj < 0 || nj > 3) return false; for (i64 q = 0; q < 4 * nj; ++q) { if (!get(v)) return false; h.just.push_back(unsigned(v & 0xFF)); }
     if (!get(v)) return false; h.nlb = unsigned(v < 0 ? 0 : v); if (h.nlb > nsub) h.nlb = nsub;
     for (i64 p = 0; p < np; ++p) { PassDef pd; i64 nr; if (!get(v)) return false; pd.maxloop = unsigned(v & 0xFF); pd.prectx = unsigned((v >> 8) & 3); const bool haspc = (v & 0x400) != 0; pd.revdir = (v & 0x800) != 0; if (!get(nr) || nr < 1 || nr > 32) return false;
         if (haspc) { i64 pl; if (!get(pl) || pl < 0 || pl > 250) return false; for (i64 q = 0; q < pl; ++q) { if (!get(v)) return false; pd.pcons.push_back(u8(v)); } }
@@ -266,7 +266,7 @@ void silf_override(Store &st, const Fault &f) {
     std::vector<i64> prog;
     if (f.kind == "OVR_SILFPROG") prog = f.a; else gen_prog(u64(f.a.empty() ? 1 : f.a[0]), prog);
     std::vector<PassDef> passes; unsigned nsub = 0, numUser = 0; bool ijust_np = false, rtl = false; SynthHdr hdr;
-    if (!decode_prog(prog, passes, nsub, numUser, ijust_np, rtl, hdr)) return;
+    if (!decode_prog(prog, passes, nsub, numUser, ijust_np, rtl, hdr)) { probe("synth:program-undecodable"); return; }
     const unsigned np = unsigned(passes.size());
     auto mx = st.tables.find(mktag("maxp")); if (mx == st.tables.end() || mx->second.size() < 6) return;
     unsigned nglyphs = be16(&mx->second[4]); if (nglyphs <= NGLYPH_USED + 1) return;
